@@ -25,6 +25,9 @@ CHECKS = {
  "C07": ("History checker: sequences of build-design / evaluate-common / evaluate-group / set-config operations are executed against the live package and every recorded result digest is compared with the same single operation executed in fresh process-state (formulae purged from sys.modules and re-imported); after every operation all earlier results, all existing designs, the caller's frames and namespaces must be unchanged, and an in-place write to a returned matrix must change nothing else. All histories up to length 3 (thorough: 4, thinned) over a pool of 4 formulas x 3 frames, random histories of length 4..12 over 6 x 4, source-free fault injection through sys.monitoring LINE callbacks, replay of sampled histories in real subprocesses with other hash seeds.",
          "Fresh state is emulated inside the shard process (module purge); real subprocess replays are a sample. The pool is fixed; leaks that need other formulas or frames are out of reach.",
          "online checker over recorded operation histories against an executable stateless model (fresh-state execution), snapshot invariants, sys.monitoring failpoints"),
+ "C08": ("Relational runtime check on design_matrices: for every driver-made design six shadow executions of the real code on transformed frames (row permutation with/without index reset, five kinds of index relabelling, column reorder, unused columns added incl. all-NaN/object/duplicated ones, unused columns removed) must give identical response/common/group matrices (row-permuted under permutation), labels, term order, slices, levels, and identical evaluate_new_data results on a fixed probe frame (fitted parameters seen through the boundary).",
+         "rtol 1e-9 on values (reductions over permuted data reassociate), everything else exact; generated callables are deterministic and row-wise.",
+         "relational runtime monitor: metamorphic shadow executions of the real code compared at the API boundary"),
 }
 NOT_APPLICABLE = {}
 PENDING = [f"C{i:02d}" for i in range(1, 18) if f"C{i:02d}" not in CHECKS]
